@@ -126,6 +126,15 @@ def run(ctx):
         if not same(r0, rt0):
             det2 = dict(det); det2.update({"issue": "shift 0 does not reproduce two_sample under the same seed", "shift0": str(r0)[:300], "two_sample": str(rt0)[:300]})
             ctx.violation("oracle", det2, site="two_sample_shift")
+        # ... also for samples stored in single / half precision (small integers and halves are exact there): both functions must
+        #     evaluate the same statistic on the same table in the same precision
+        if ctx.rng.random() < 0.3 and all(abs(v) < 1000 and float(v * 2).is_integer() for v in p["x"] + p["y"]):
+            ndt = ctx.rng.choice([np.float32, np.float16]); xs, ys = np.array(p["x"], dtype=ndt), np.array(p["y"], dtype=ndt); ctx.count("narrow-float-storage-" + np.dtype(ndt).name)
+            q0 = guarded(core.two_sample_shift, xs, ys, stat=st, seed=seed, shift=0, **kw); qt0 = guarded(core.two_sample, xs, ys, stat=st, seed=seed, **kw)
+            if not same(q0, qt0):
+                det2 = dict(det); det2.update({"issue": "shift 0 does not reproduce two_sample under the same seed for samples stored as " + np.dtype(ndt).name,
+                                               "shift0": str(q0)[:300], "two_sample": str(qt0)[:300]})
+                ctx.violation("oracle", det2, site="two_sample_shift")
         # constant d and the pair (u+d, u-d) give identical results
         d_arg = d
         if ctx.rng.random() < 0.35:      # a shift that comes out of a NumPy computation (np.mean(x) - np.mean(y), an element of linspace)
